@@ -35,5 +35,7 @@ def are_matrices_equivalent_up_to_global_phase(
         return False
 
     phase_difference = matrix_a[largest] / matrix_b[largest]
+    # A global phase has modulus one: a matrix that is a mere multiple of the other is a different operator.
+    phase_difference /= abs(phase_difference)
 
     return np.allclose(matrix_a, phase_difference * matrix_b, atol=ATOL)
